@@ -99,7 +99,7 @@ func (p *Path) invokeByName(recv Value, name string, args []Value, site ssa.Inst
 	if n, ok := iv.V.(*NativeObj); ok {
 		return n.Call(p, name, args, site)
 	}
-	fn := p.E.Prog.LookupMethod(iv.T, nil, name)
+	fn := p.lookupMethod(iv.T, nil, name)
 	if fn == nil {
 		p.unsupported("no method %s on %s", name, iv.T)
 	}
